@@ -18,10 +18,13 @@ import (
 	"errors"
 	"fmt"
 	"io"
+	"io/fs"
+	"os"
 	"sort"
 	"strconv"
 	"strings"
 	"sync"
+	"syscall"
 	"time"
 
 	"go4.org/jsonconfig"
@@ -78,18 +81,88 @@ func (s *mapStore) refs() []blob.Ref {
 
 // ---- fault vocabulary (same words as the Lean driver) -----------------------------------------------
 
-var copyFaults = []string{"ok", "fetcherr", "fetchsize", "shortread", "corrupt", "desterr", "destsize"}
-
-func isCopyFault(s string) bool {
-	for _, f := range copyFaults {
-		if f == s {
-			return true
-		}
-	}
-	return false
-}
+// errKinds are the kinds of injected error values: every sentinel / error class that Go code
+// commonly singles out with errors.Is or ==. A fault word is `base` (generic error) or `base:kind`.
+var errKinds = []string{"generic", "notexist", "enoent", "canceled", "deadline", "eof", "ueof", "corruptblob", "notfound"}
 
 var errInjected = errors.New("c19: injected fault")
+
+func errOfKind(kind string) error {
+	switch kind {
+	case "notexist":
+		return os.ErrNotExist
+	case "enoent":
+		return &fs.PathError{Op: "open", Path: "/c19/transiently/unavailable", Err: syscall.ENOENT}
+	case "canceled":
+		return context.Canceled
+	case "deadline":
+		return context.DeadlineExceeded
+	case "eof":
+		return io.EOF
+	case "ueof":
+		return io.ErrUnexpectedEOF
+	case "corruptblob":
+		return blobserver.ErrCorruptBlob
+	case "notfound":
+		return sorted.ErrNotFound
+	}
+	return errInjected
+}
+
+// splitKind parses `base` or `base:kind`.
+func splitKind(w string) (base, kind string, ok bool) {
+	parts := strings.Split(w, ":")
+	switch len(parts) {
+	case 1:
+		return w, "generic", true
+	case 2:
+		for _, k := range errKinds {
+			if k == parts[1] {
+				return parts[0], k, true
+			}
+		}
+	}
+	return "", "", false
+}
+
+// errOfFault is the error value of a fault word whose base is one of bases, nil otherwise.
+func errOfFault(w string, bases ...string) error {
+	b, k, ok := splitKind(w)
+	if !ok {
+		return nil
+	}
+	for _, x := range bases {
+		if b == x {
+			return errOfKind(k)
+		}
+	}
+	return nil
+}
+
+// copyFaults: the base outcomes of a copy attempt; fetcherr / shortread / desterr take a kind.
+var copyFaults = []string{"ok", "fetcherr", "fetchsize", "shortread", "corrupt", "desterr", "destsize"}
+
+func isCopyFault(w string) bool {
+	switch w {
+	case "ok", "fetchsize", "corrupt", "destsize", "shortread:eof0":
+		return true
+	}
+	b, _, ok := splitKind(w)
+	return ok && (b == "fetcherr" || b == "shortread" || b == "desterr")
+}
+
+// allCopyFaults enumerates every fault word.
+func allCopyFaults() []string {
+	out := []string{"ok", "fetchsize", "corrupt", "destsize", "shortread:eof0"}
+	for _, b := range []string{"fetcherr", "shortread", "desterr"} {
+		out = append(out, b)
+		for _, k := range errKinds[1:] {
+			out = append(out, b+":"+k)
+		}
+	}
+	return out
+}
+
 var errKilled = errors.New("c19: handler generation was killed")
 
 // ---- one world = persistent state; one gen = one process lifetime of the sync handler ---------------
@@ -103,7 +176,7 @@ type world struct {
 
 type bp struct {
 	pos     string // "pre" | "post"
-	fail    bool   // the queue operation it guards fails (without effect)
+	fail    error  // the queue operation it guards fails (without effect) with this error
 	parked  chan struct{}
 	release chan struct{}
 	once    sync.Once
@@ -117,9 +190,9 @@ type gen struct {
 
 	fmu    sync.Mutex
 	fault  map[string]string // ref string -> copy fault (fetch*/dest*)
-	srcerr map[string]bool   // source ReceiveBlob fails
-	qset   map[string]bool   // queue.Set fails
-	qdel   map[string]bool   // queue.Delete fails
+	srcerr map[string]error  // source ReceiveBlob fails
+	qset   map[string]error  // queue.Set fails
+	qdel   map[string]error  // queue.Delete fails
 	bpSet  map[string]*bp    // one-shot breakpoints of queue.Set / queue.Delete, by key
 	bpDel  map[string]*bp
 	allBps []*bp
@@ -131,7 +204,7 @@ type gen struct {
 }
 
 func newGen(w *world) *gen {
-	g := &gen{w: w, fault: map[string]string{}, srcerr: map[string]bool{}, qset: map[string]bool{}, qdel: map[string]bool{},
+	g := &gen{w: w, fault: map[string]string{}, srcerr: map[string]error{}, qset: map[string]error{}, qdel: map[string]error{},
 		bpSet: map[string]*bp{}, bpDel: map[string]*bp{}}
 	g.src, g.dst, g.q = &genSrc{g}, &genDst{g}, &genQ{g}
 	return g
@@ -148,7 +221,7 @@ func (g *gen) kill() {
 	g.fmu.Unlock()
 }
 
-func (g *gen) arm(m map[string]*bp, key, pos string, fail bool) *bp {
+func (g *gen) arm(m map[string]*bp, key, pos string, fail error) *bp {
 	b := &bp{pos: pos, fail: fail, parked: make(chan struct{}), release: make(chan struct{})}
 	g.fmu.Lock()
 	m[key] = b
@@ -206,12 +279,13 @@ type genSrc struct{ g *gen }
 type faultReader struct {
 	data []byte
 	off  int
-	fail int // error once off reaches fail (>= 0)
+	fail int   // error once off reaches fail (>= 0)
+	err  error // the error returned then
 }
 
 func (r *faultReader) Read(p []byte) (int, error) {
 	if r.fail >= 0 && r.off >= r.fail {
-		return 0, errInjected
+		return 0, r.err
 	}
 	if r.off >= len(r.data) {
 		return 0, io.EOF
@@ -231,13 +305,21 @@ func (s *genSrc) Fetch(_ context.Context, br blob.Ref) (rc io.ReadCloser, size u
 		if !ok {
 			return errors.New("c19: no such blob in source")
 		}
-		switch s.g.faultOf(br) {
-		case "fetcherr":
-			return errInjected
+		f := s.g.faultOf(br)
+		if e := errOfFault(f, "fetcherr"); e != nil {
+			return e
+		}
+		if f == "shortread:eof0" {
+			rc, size = io.NopCloser(&faultReader{data: b, fail: 0, err: io.EOF}), uint32(len(b))
+			return nil
+		}
+		if e := errOfFault(f, "shortread"); e != nil {
+			rc, size = io.NopCloser(&faultReader{data: b, fail: len(b) / 2, err: e}), uint32(len(b))
+			return nil
+		}
+		switch f {
 		case "fetchsize":
 			rc, size = io.NopCloser(bytes.NewReader(b)), uint32(len(b))+1
-		case "shortread":
-			rc, size = io.NopCloser(&faultReader{data: b, fail: len(b) / 2}), uint32(len(b))
 		case "corrupt":
 			c := append([]byte(nil), b...)
 			c[len(c)/2] ^= 0x20
@@ -259,8 +341,8 @@ func (s *genSrc) ReceiveBlob(_ context.Context, br blob.Ref, r io.Reader) (sb bl
 		s.g.fmu.Lock()
 		f := s.g.srcerr[br.String()]
 		s.g.fmu.Unlock()
-		if f {
-			return errInjected
+		if f != nil {
+			return f
 		}
 		s.g.w.src.put(br, all)
 		sb = blob.SizedRef{Ref: br, Size: uint32(len(all))}
@@ -320,8 +402,8 @@ func (d *genDst) ReceiveBlob(_ context.Context, br blob.Ref, r io.Reader) (sb bl
 	}
 	err = d.g.act(func() error {
 		f := d.g.faultOf(br)
-		if f == "desterr" {
-			return errInjected
+		if e := errOfFault(f, "desterr"); e != nil {
+			return e
 		}
 		d.g.w.dst.put(br, all)
 		sb = blob.SizedRef{Ref: br, Size: uint32(len(all))}
@@ -360,8 +442,11 @@ func (q *genQ) Set(key, value string) error {
 		q.g.fmu.Lock()
 		f := q.g.qset[key]
 		q.g.fmu.Unlock()
-		if f || (b != nil && b.fail) {
-			return errInjected
+		if f != nil {
+			return f
+		}
+		if b != nil && b.fail != nil {
+			return b.fail
 		}
 		return q.g.w.queue.Set(key, value)
 	})
@@ -376,8 +461,11 @@ func (q *genQ) Delete(key string) error {
 		q.g.fmu.Lock()
 		f := q.g.qdel[key]
 		q.g.fmu.Unlock()
-		if f || (b != nil && b.fail) {
-			return errInjected
+		if f != nil {
+			return f
+		}
+		if b != nil && b.fail != nil {
+			return b.fail
 		}
 		return q.g.w.queue.Delete(key)
 	})
@@ -541,11 +629,11 @@ func (e *Exec) setUpFault(br blob.Ref, q string) {
 	e.g.fmu.Lock()
 	delete(e.g.qset, br.String())
 	delete(e.g.srcerr, br.String())
-	switch q {
-	case "qseterr":
-		e.g.qset[br.String()] = true
-	case "srcerr":
-		e.g.srcerr[br.String()] = true
+	if err := errOfFault(q, "qseterr"); err != nil {
+		e.g.qset[br.String()] = err
+	}
+	if err := errOfFault(q, "srcerr"); err != nil {
+		e.g.srcerr[br.String()] = err
 	}
 	e.g.fmu.Unlock()
 }
@@ -557,21 +645,28 @@ func (e *Exec) setCopyFault(br blob.Ref, f, dq string) {
 	if f != "ok" {
 		e.g.fault[br.String()] = f
 	}
-	if dq == "qdelerr" {
-		e.g.qdel[br.String()] = true
+	if err := errOfFault(dq, "qdelerr"); err != nil {
+		e.g.qdel[br.String()] = err
 	}
 	e.g.fmu.Unlock()
 }
 
 func (e *Exec) clearFaults() {
 	e.g.fmu.Lock()
-	e.g.fault, e.g.qdel = map[string]string{}, map[string]bool{}
+	e.g.fault, e.g.qdel = map[string]string{}, map[string]error{}
 	e.g.fmu.Unlock()
 }
 
-func validUpFault(q string) bool  { return q == "ok" || q == "qseterr" || q == "srcerr" }
-func validDelFault(q string) bool { return q == "ok" || q == "qdelerr" }
-func validPos(p string) bool      { return p == "pre" || p == "post" }
+func validUpFault(q string) bool {
+	b, _, ok := splitKind(q)
+	return q == "ok" || (ok && (b == "qseterr" || b == "srcerr"))
+}
+func validDelFault(q string) bool {
+	b, _, ok := splitKind(q)
+	return q == "ok" || (ok && b == "qdelerr")
+}
+func isSrcErr(q string) bool { return errOfFault(q, "srcerr") != nil }
+func validPos(p string) bool { return p == "pre" || p == "post" }
 
 // Step executes one op line on the real code.
 func (e *Exec) Step(ws []string) string {
@@ -627,12 +722,12 @@ func (e *Exec) Step(ws []string) string {
 			return "busy"
 		}
 		br := e.note(i)
-		if ws[2] == "srcerr" {
-			e.setUpFault(br, "srcerr")
+		if isSrcErr(ws[2]) {
+			e.setUpFault(br, ws[2])
 		}
 		// the breakpoint is one-shot and carries the queue fault, so a concurrent atomic upload of
 		// the same blob neither parks nor inherits the fault
-		b := e.g.arm(e.g.bpSet, br.String(), ws[3], ws[2] == "qseterr")
+		b := e.g.arm(e.g.bpSet, br.String(), ws[3], errOfFault(ws[2], "qseterr"))
 		done := make(chan error, 1)
 		go func() { done <- e.upload(i, br) }()
 		parked, err, hang := waitParkedOrDone(b, done)
@@ -707,7 +802,7 @@ func (e *Exec) Step(ws []string) string {
 			return "ok"
 		}
 		e.setCopyFault(br, ws[2], "ok")
-		b := e.g.arm(e.g.bpDel, br.String(), ws[4], ws[3] == "qdelerr")
+		b := e.g.arm(e.g.bpDel, br.String(), ws[4], errOfFault(ws[3], "qdelerr"))
 		done := make(chan error, 1)
 		go func() { done <- e.g.sh.VerifCopyBlob(ctx, sb) }()
 		parked, err, hang := waitParkedOrDone(b, done)
